@@ -171,14 +171,23 @@ Theorem C11_same_target_overlap_refuted :
 Proof. exact Witness.same_target_refuted. Qed.
 Print Assumptions C11_same_target_overlap_refuted.
 
-(* F3 (guard G2): two unordered writers of one file, one spelled ../../ws/p1/a, are accepted *)
+(* F3 (guard G2): two unordered writers of one file, one spelled ../../ws/p1/a, are accepted;
+   every output is a file output inside the workspace *)
 Theorem C11_reentrant_overlap_refuted :
-  exists rootc g, clean_root rootc /\ validate rootc g = Accept /\ ~ no_conflict rootc g.
+  exists rootc g, clean_root rootc /\ validate rootc g = Accept /\
+    outputs_ok rootc g /\
+    (forall t o, In (NTarget t) g -> In o (all_outputs t) -> o_type o = OFile) /\
+    ~ no_conflict rootc g.
 Proof. exact Witness.reentrant_refuted. Qed.
 Print Assumptions C11_reentrant_overlap_refuted.
 
-(* F4 (guard G2): a directory output that IS the workspace root overlaps nothing for pathWithin *)
+(* F4 (guard G2): a directory output that IS the workspace root overlaps nothing for pathWithin;
+   every output is inside the workspace and never spelled through a directory above the root *)
 Theorem C11_root_dir_overlap_refuted :
-  exists rootc g, clean_root rootc /\ validate rootc g = Accept /\ ~ no_conflict rootc g.
+  exists rootc g, clean_root rootc /\ validate rootc g = Accept /\
+    outputs_ok rootc g /\
+    (forall t o, In (NTarget t) g -> In o (all_outputs t) ->
+       resolve_from [] (split_slash (lpkg (t_label t)) ++ split_slash (o_id o)) <> None) /\
+    ~ no_conflict rootc g.
 Proof. exact Witness.root_dir_refuted. Qed.
 Print Assumptions C11_root_dir_overlap_refuted.
